@@ -193,6 +193,9 @@ func (p *ProjectRunner) waitIfNeeded(process *types.ProcessConfig) error {
 			case types.ProcessConditionStarted:
 				log.Info().Msgf("%s is waiting for %s to start", process.ReplicaName, k)
 				proc.waitForStarted()
+				if !proc.isStarted() {
+					return fmt.Errorf("process %s depended on %s to start, but it was terminated before it started", process.ReplicaName, k)
+				}
 			}
 			verifTraceDep(process, k, "DepSatisfied", proc)
 		} else {
